@@ -43,6 +43,10 @@ def main (args : List String) : IO Unit := do
       | [] => st
       | ws => (dataLine st ws).getD st) {}
     for l in Load.printRecords (Load.encode st.ds) do IO.println l
+  | ["--load", f0, "--update", names, f1] => do
+    let d0 := Load.parseRecords ((← IO.FS.readFile f0).splitOn "\n")
+    let d1 := Load.parseRecords ((← IO.FS.readFile f1).splitOn "\n")
+    for l in Load.printLoaded (Load.updateNames d1 (names.splitOn ",") (Load.loadAll d0)) do IO.println l
   | ["--load", f] => do
     let txt ← IO.FS.readFile f
     for l in Load.printLoaded (Load.loadAll (Load.parseRecords (txt.splitOn "\n"))) do IO.println l
